@@ -1,6 +1,7 @@
 package eng
 
 import (
+	"os"
 	"fmt"
 	"go/ast"
 	"go/token"
@@ -35,6 +36,16 @@ func (x *Exec) evalCall(s *State, call *ast.CallExpr) []*Value {
 	case *ast.Ident:
 		callee = info.Uses[f]
 	case *ast.SelectorExpr:
+		if sel := info.Selections[f]; sel != nil && sel.Kind() == types.MethodExpr {
+			// method expression T.M(recv, args...)
+			if m, ok := sel.Obj().(*types.Func); ok && len(call.Args) > 0 {
+				recv := x.eval(s, call.Args[0])
+				msig := m.Type().(*types.Signature)
+				rest := &ast.CallExpr{Fun: call.Fun, Args: call.Args[1:], Lparen: call.Lparen, Rparen: call.Rparen, Ellipsis: call.Ellipsis}
+				args := x.evalArgs(s, rest, nil, msig)
+				return x.callFunc(s, m, recv, nil, args, call)
+			}
+		}
 		if sel := info.Selections[f]; sel != nil {
 			callee = sel.Obj()
 			recvExpr = f.X
@@ -154,7 +165,31 @@ func (x *Exec) callFuncValue(s *State, fv *Value, call *ast.CallExpr) []*Value {
 			}
 		}
 	}
+	// a function-typed parameter: arbitrary behaviour — it may panic, and it may change (only) the worlds
+	// reachable through the context values passed to it
 	x.Unmod["call of unknown function value at "+x.Pr.Pos(call.Pos())]++
+	for _, a := range args {
+		if a != nil && a.K == KCtx {
+			if w, ok := s.Worlds[a.W]; ok {
+				nw := w.Clone()
+				tag := Fresh("fnval.w", SInt).Name
+				nw.Tag = tag
+				nw.Rest = Var(tag, SInt)
+				nw.RestMod = nil
+				nw.Fams = map[string]*FamState{}
+				nw.Bal = Var(tag+".bal", w.Bal.S)
+				nw.Supply = Var(tag+".supply", w.Supply.S)
+				s.Worlds[a.W] = nw
+			}
+		}
+	}
+	if x.specMode == 0 {
+		pc := Fresh("fnval.panics", SBool)
+		ps := s.Clone()
+		ps.Assume(pc)
+		x.addPanicExit(x.cur, ps, "callee-panic", call.Pos())
+		s.Assume(Not(pc))
+	}
 	return x.havocResults(s, sig, "fnval")
 }
 
@@ -196,7 +231,25 @@ func (x *Exec) callFunc(s *State, f *types.Func, recv *Value, recvExpr ast.Expr,
 		return r
 	}
 	x.Unmod[full]++
+	x.havocPtrArgs(s, args)
 	return x.havocResults(s, sig, f.Name())
+}
+
+// havocPtrArgs: an unmodelled callee may write through every pointer it receives.
+func (x *Exec) havocPtrArgs(s *State, args []*Value) {
+	for _, a := range args {
+		if a == nil {
+			continue
+		}
+		if a.K == KOpaque && a.Dyn != nil {
+			a = a.Dyn
+		}
+		if a.K == KPtr && a.Cell != 0 {
+			if old := s.Heap[a.Cell]; old != nil && old.Typ != nil && old.K != KOpaque && old.K != KCtx {
+				s.Heap[a.Cell] = x.freshValue(old.Typ, "unmodelled.out", s)
+			}
+		}
+	}
 }
 
 // callInterface resolves calls through keeper interfaces.
@@ -245,6 +298,7 @@ func (x *Exec) callInterface(s *State, f *types.Func, recv *Value, recvExpr ast.
 		return x.inlineOrContract(s, fi, &Value{K: KOpaque, Typ: rt}, args, call)
 	}
 	x.Unmod["(interface "+iname+")."+f.Name()]++
+	x.havocPtrArgs(s, args)
 	return x.havocResults(s, sig, f.Name())
 }
 
@@ -312,23 +366,29 @@ func (x *Exec) inlineBody(s *State, fi *FuncInfo, ft *ast.FuncType, body *ast.Bl
 		}
 		c.exits = append(c.exits, &Exit{Kind: "return", S: end, Vals: vals})
 	}
-	// propagate panics to the caller's frame unless recovered
+	// run deferred functions on every exit; propagate panics that were not recovered
 	var rets []*Exit
 	for _, e := range c.exits {
-		if e.Kind == "panic" {
-			if c.recovers {
-				// deferred recover: the function returns its (named) results as they are
-				var vals []*Value
-				for i, cell := range c.resCells {
-					_ = i
-					vals = append(vals, e.S.Heap[cell])
+		if e.Kind == "return" && len(c.resCells) > 0 && len(c.defers) > 0 {
+			// return values are first assigned to the named results, which deferred functions may modify
+			for i, cell := range c.resCells {
+				if i < len(e.Vals) {
+					e.S.Heap[cell] = e.Vals[i]
 				}
-				x.runRecoverHandler(c, e, &vals)
-				rets = append(rets, &Exit{Kind: "return", S: e.S, Vals: vals, Pos: e.Pos})
-				continue
 			}
+		}
+		x.runDefers(c, e)
+		if e.S.PC.Op == "false" {
+			continue
+		}
+		if e.Kind == "panic" {
 			saved.exits = append(saved.exits, e)
 			continue
+		}
+		if e.Vals == nil && len(c.resTypes) > 0 {
+			for _, t := range c.resTypes {
+				e.Vals = append(e.Vals, x.liven(e.S, zeroValue(t)))
+			}
 		}
 		rets = append(rets, e)
 	}
@@ -339,6 +399,14 @@ func (x *Exec) inlineBody(s *State, fi *FuncInfo, ft *ast.FuncType, body *ast.Bl
 			out = append(out, x.liven(s, zeroValue(t)))
 		}
 		return out
+	}
+	if dbg := os.Getenv("GOVC_DEBUG_CALL"); dbg != "" && fi != nil && strings.Contains(fi.Name, dbg) {
+		for i, e := range rets {
+			fmt.Fprintf(os.Stderr, "DEBUG %s exit %d: pc-rel=%s\n", fi.Name, i, TermString(relCond(e.S.PC, rets[0].S.PC), 300))
+			for j, v := range e.Vals {
+				fmt.Fprintf(os.Stderr, "   val%d = %s\n", j, v.String())
+			}
+		}
 	}
 	// merge return exits
 	nres := len(c.resTypes)
@@ -391,44 +459,6 @@ func (c *callCtx) name() string {
 		return c.fi.Name
 	}
 	return "<closure>"
-}
-
-func (x *Exec) runRecoverHandler(c *callCtx, e *Exit, vals *[]*Value) {
-	// A deferred func(){ if r := recover(); r != nil { ...assign named results... } } — execute its body on the panic state.
-	if c.deferredRecover == nil {
-		return
-	}
-	saved := x.cur
-	x.cur = c
-	defer func() { x.cur = saved }()
-	x.inRecover++
-	rc := &callCtx{fi: c.fi, info: c.info, pkg: c.pkg, env: NewEnv(c.env), depth: c.depth + 1, parent: c, lit: c.deferredRecover}
-	x.cur = rc
-	end := x.execBlock(e.S, c.deferredRecover.Body.List)
-	x.inRecover--
-	var all []*State
-	if end != nil {
-		all = append(all, end)
-	}
-	for _, ex := range rc.exits {
-		if ex.Kind == "return" {
-			all = append(all, ex.S)
-		} else {
-			// panic inside the recover handler propagates
-			if c.parent != nil {
-				c.parent.exits = append(c.parent.exits, ex)
-			}
-		}
-	}
-	m := x.mergeMany(all)
-	if m == nil {
-		e.S.PC = False
-		return
-	}
-	*e.S = *m
-	for i, cell := range c.resCells {
-		(*vals)[i] = e.S.Heap[cell]
-	}
 }
 
 func (x *Exec) bindParams(s *State, c *callCtx, ft *ast.FuncType, recvFL *ast.FieldList, recv *Value, args []*Value, pos token.Pos) {
@@ -620,8 +650,15 @@ func (x *Exec) evalBuiltin(s *State, call *ast.CallExpr, name string) []*Value {
 		}
 		return []*Value{prim(Ite(Ge(a.T, b.T), a.T, b.T), a.Typ)}
 	case "recover":
-		if x.inRecover > 0 {
-			return []*Value{{K: KOpaque, Typ: types.Universe.Lookup("any").Type(), T: Fresh("recovered", SInt)}}
+		// recover() stops the panic of the exit this deferred function runs for (only when called directly by it)
+		if x.cur != nil && x.cur.deferOf != nil && x.cur.deferOf.Kind == "panic" {
+			ex := x.cur.deferOf
+			ex.Kind = "return"
+			ex.Why = "recovered: " + ex.Why
+			ex.Vals = nil
+			rv := Fresh("recovered", SInt)
+			s.Assume(Neq(rv, Zero))
+			return []*Value{{K: KOpaque, Typ: types.Universe.Lookup("any").Type(), T: rv}}
 		}
 		return []*Value{{K: KOpaque, T: Zero}}
 	case "print", "println":
